@@ -29,7 +29,7 @@ ASSUMPTIONS = ["inputs nested at most 100 levels", "patches and documents are su
 
 FRAGS = ["$", "@", "#", "_", "^", "~", "|", "&", ".", "..", "*", "?", "[", "]", "(", ")", ",", ":", "!", "==", "!=", "<", "<=", ">", ">=", "<>", "=~", "&&", "||", "and", "or", "not",
          "in", "contains", "true", "false", "null", "nil", "none", "undefined", "missing", "True", "None", "a", "ab", "_x", "é", "😀", "0", "1", "-1", "01", "-0", "1e2", "1E+2", "1e-2",
-         "1e400", "1.5", "1.", "-", "+", "9" * 30, "'a'", '"a"', "'", '"', "'a\\'", "'\\u12'", "'\\ud800'", "/a/", "/a/i", "/[/", "/", "/a{99999999999}/", "/(?u)x/a", "/(?i)a(?a)/", "/a{2,1}/", "/(?P<n>a)(?P<n>b)/", "/\\1/", "/(?<=a+)b/", "/a**/", "length(", "count(", "nosuch(", "match(", " ", "\n",
+         "1e400", "1.5", "1.", "-", "+", "9" * 30, "'a'", '"a"', "'", '"', "'a\\'", "'\\u12'", "'\\ud800'", "/a/", "/a/i", "/[/", "/", "/a{99999999999}/", "/(?u)x/a", "/(?i)a(?a)/", "/a{2,1}/", "/(?P<n>a)(?P<n>b)/", "/\\1/", "/(?<=a+)b/", "/a**/", "length(", "count(", "nosuch(", "match(", "search(", "value(", "typeof(", "type(", "is(", "isinstance(", "'number'", "'array'", " ", "\n",
          "\\", "=", "%", "{", "}", "１", "\x00", "a-b", "[?", ".*", "[*]", "1:2", "::", ":-1", "$$", "@@"]
 DOCS = [None, True, 0, 1.5, "abc", [], {}, [1, "a", None, [2], {"a": 1}], {"a": [1, 2], "b": {"c": "x"}, "s": "ab", "k": 1}, [[[[1]]]], {"": {"": 1}}, [0, False, "", None]]
 VALID_PTRS = ["", "/", "/a", "/a/0", "/a~1b", "/~0", "/0/1", "/a/-", "/-1", "/#a", "/~a", "/é", "/a\\u00e9", " /a"]
@@ -45,7 +45,8 @@ TYPEVALS = [None, True, False, 0, 1, 1.5, "", "abc", "a.*", "[", "a{99999999999}
 GRID_QUERIES = ["$[?match(@.a, @.b)]", "$[?search(@.a, @.b)]", "$[?match(@.a, 'a.*')]", "$[?search('abc', @.b)]", "$[?length(@.a) == 1]", "$[?length(@.a) < length(@.b)]",
                 "$[?count(@.a.*) > 0]", "$[?value(@.a) == @.b]", "$[?@.a in @.b]", "$[?@.a contains @.b]", "$[?@.a =~ /a.*/]", "$[?@.a < @.b]", "$[?@.a <= @.b]", "$[?@.a == @.b]",
                 "$[?@.a <> @.b]", "$[?!@.a || @.b]", "$[?@.a[0] == @.b[0]]", "$[?@.a['a'] == 1]", "$..[?@ == $[0].a]", "$[?# in @.a]", "$[?@.a in _.x]", "$[?_.x contains @.b]",
-                "$[?match(@.a, 1)]", "$[?search(@.a, true)]", "$[?match(1, @.b)]", "$[*].a[0:2]", "$[*].a[-1]", "$[*].a.*", "$[*].a..*", "$[*]['a','b'][0]", "$[*].a.~"]
+                "$[?match(@.a, 1)]", "$[?search(@.a, true)]", "$[?match(1, @.b)]", "$[?typeof(@.a) == @.b]", "$[?type(@.a) == typeof(@.b)]", "$[?is(@.a, @.b)]", "$[?isinstance(@.a, @.b)]",
+                "$[?is(@.*, 'array')]", "$[?is(@.a, 'number') || isinstance(@.b, 'nosuchtype')]", "$[?typeof(@.a, @.b) == 'x']", "$[?typeof(@..a) == 'array']", "$[*].a[0:2]", "$[*].a[-1]", "$[*].a.*", "$[*].a..*", "$[*]['a','b'][0]", "$[*].a.~"]
 
 
 class Timeout(Exception):
@@ -149,7 +150,7 @@ def classify(o, families):
     return "ESCAPE:" + o["err"]
 
 
-def evaluate(ctx, cases):
+def _evaluate(ctx, cases):
     import jsonpath
     from jsonpath import JSONPatch, JSONPointer, RelativeJSONPointer
 
@@ -306,6 +307,17 @@ def evaluate(ctx, cases):
         signal.signal(signal.SIGALRM, signal.SIG_DFL)
         if old_alarm:
             signal.alarm(old_alarm)
+
+
+def evaluate(ctx, cases):
+    del core.STR_FAILURES[:]
+    try:
+        _evaluate(ctx, cases)
+    finally:
+        # rendering ANY error raised during this run as text must succeed (compile, evaluation, pointer parsing and
+        # resolution, relative pointers, patch building and application)
+        for f in core.STR_FAILURES:
+            ctx.violation("rendering an error as text must succeed", f, "str(error) raised", "a message")
 
 
 def search(ctx):
